@@ -88,6 +88,19 @@ def cases(seed, tier):
         if rng.random() < 0.3:
             c['extra_lines'] = {str(rng.randrange(k)): ['']}
         yield c
+    yield from long_cases(seed, tier)
+
+
+def long_cases(seed, tier):
+    """A run that simply takes long: a dozen or more silent targets handled by one worker, then a healthy one."""
+    for j in range(2 if tier == 'quick' else 8):
+        rng = gen.case_rng(seed, ID, 'long', j)
+        n = rng.choice([12, 14, 20])
+        targets = [bad_target(rng, rng.choice(['silent', 'silent', 'stall_kexinit', 'blackhole']), i) for i in range(n)]
+        targets.insert(rng.choice([0, n // 2, n]), make_target(rng, rng.choice(HEALTHY), n))
+        mode = rng.choice(['text', 'json'])
+        yield {'targets': targets, 'mode': mode, 'opts': ['-n'] if mode == 'text' else ['-j'], 'threads': rng.choice([1, 1, 2]), 'sched': {'policy': 'run_to_block', 'seed': 0},
+               'net': {'rtt_us': 300}, 'pseed': rng.getrandbits(32), 'timeout': rng.choice([1, 2])}
 
 
 def sample(case):
